@@ -18,7 +18,7 @@ ITEM = Cls('NARROW', minus="'\\")
 
 DEFAULT_KINDS = ['none', 'int0', 'int7', 'float0', 'float35', 'true', 'false', 'empty', 'str', 'expr']
 IDX_TYPES = [None, 'brin', 'btree', 'gin', 'gist', 'hash', 'spgist']
-EXPRS = ['now()', '(a) + (b)', '(x)', '((y))', "coalesce(a, 'z')", 'a - (b)']   # incl. texts that already start and end with parentheses
+EXPRS = ['now()', '(a) + (b)', '(x)', '((y))', "coalesce(a, 'z')", 'a - (b)', "regexp_replace(b, '\\n+', ' ')", 'a\\tb || \\r\\f']   # incl. texts that already start and end with parentheses
 
 
 def _default(kind, raw, ex=0):
